@@ -1,27 +1,30 @@
 #!/bin/bash
-# usage: detect_matrix.sh "<NN>:<k>:<props>" ...   e.g. "06:1:C06 C09"
-# Applies each seeded change to a scratch worktree of /repo (never to /repo), runs the quick checks of the listed
-# properties against it (XV_REPO_SRC), records verdicts and the patch rebased on HEAD.
+# usage: detect_matrix.sh [<seeded-id>:<props> ...]   (default: every /verif/seeded/*/ with its own property)
+# Applies each seeded change (patch.diff, rebased on HEAD) to a scratch worktree of /repo (never to /repo), runs the
+# quick checks of the listed properties against it (XV_REPO_SRC) and records exit status + first violation line in
+# /verif/seeded/<id>/detection.txt
 WT=/tmp/xv_detect_wt
-mkdir -p /tmp/seed/detect /tmp/seed/rebased
 git -C /repo worktree remove --force $WT 2>/dev/null; rm -rf $WT
 git -C /repo worktree add -q --detach $WT HEAD || exit 2
-for spec in "$@"; do
-  IFS=: read NN K PROPS <<< "$spec"
-  kk=$K; [ "$K" = "1" ] && kk=""
-  patch=/tmp/seed/out/$NN/patch$kk.diff
-  [ -f /tmp/seed/out/$NN/patch${kk}_adapted.diff ] && patch=/tmp/seed/out/$NN/patch${kk}_adapted.diff
-  out=/tmp/seed/detect/${NN}_$K.txt; : > $out
+specs=("$@")
+if [ ${#specs[@]} -eq 0 ]; then
+  for d in /verif/seeded/*/; do id=$(basename $d); specs+=("$id:${id%%-*}"); done
+fi
+for spec in "${specs[@]}"; do
+  id=${spec%%:*}; props=${spec#*:}
+  d=/verif/seeded/$id; out=$d/detection.txt
+  [ -f $d/patch.diff ] || continue
   cd $WT && git checkout -q -- . && git clean -fdq
-  if git apply "$patch" 2>/dev/null || (git apply --3way "$patch" 2>/dev/null && git reset -q) || patch -p1 -F3 -s < "$patch" 2>/dev/null; then
-    git diff > /tmp/seed/rebased/${NN}_$K.diff
-    for p in $PROPS; do
-      r=$(cd /verif && XV_REPO_SRC=$WT/src timeout 1500 ./check $p --tier quick 2>&1 | grep -E "^VIOLATION|^OK property|^MACHINERY|^  violation" | head -4 | cut -c1-260)
-      echo "[$p] $r" >> $out
+  echo "# HEAD $(git -C /repo rev-parse --short HEAD), $(date -u +%FT%TZ)" > $out
+  if git apply $d/patch.diff 2>/dev/null; then
+    for p in $props; do
+      log=$(cd /verif && XV_REPO_SRC=$WT/src timeout 1800 ./check $p --tier quick 2>&1); rc=$?
+      first=$(echo "$log" | grep -m1 "^  violation" | cut -c1-300)
+      echo "$p exit=$rc $(echo "$log" | grep -m1 -E "^VIOLATION|^OK property|^MACHINERY" | cut -c1-120) | $first" >> $out
     done
   else
     echo "NOAPPLY" >> $out
   fi
 done
 cd / && git -C /repo worktree remove --force $WT; rm -rf $WT
-echo DONE >> /tmp/seed/detect/_done
+touch /tmp/seed/matrix2_done
